@@ -276,3 +276,6 @@ from suites import thorough as _th
 GROUPS["thorough:import-programs"] = _th.bounded_from_replay("bounded/vendored-package-imports", replay_imports)
 from suites import progenum as _pg
 GROUPS["thorough:enum-import-forms"] = _th.only_thorough(_pg.g_f7)
+
+# bounded stand-ins for undecided obligations (olvc/oblig.py::main_check)
+STANDINS = {"*": [dict(kind="imports")]}
